@@ -153,9 +153,148 @@ theorem reachable_no_index_error {cmp : Cmp K} (T : Total cmp) {s : St K} (hr : 
     ∃ s' r, step cmp s op = (some s', r) :=
   (inv_step T s (reachable_inv T hr) op).2 hpre
 
-/-- `len(heap)` is the number of live items -/
+/-- `len(heap)` is the number of nodes of the model's forest.  NOTE: this is the invariant's field `Inv.size`
+    re-read (`live` is defined from the forest); the statement with "live" defined from the HISTORY of pushes / pops /
+    removes, independently of the invariant, is `size_eq_history` below. -/
 theorem size_eq_live {cmp : Cmp K} {h : Heap K} (hI : Inv cmp h) : h.n = (live h).length := by
   simp [live, items, hI.size]
+
+/-! ### the reported size against the HISTORY of operations
+
+  `size_eq_live` above only re-reads the invariant's field `size` (`live` is the content of the model's own forest).
+  Here "live" is defined INDEPENDENTLY of the heap and of the invariant, from the operations and their return values
+  alone: `liveAfter` adds the identity `push` returned, removes the identity `pop` returned and the identity `remove`
+  was given, forgets everything on `clear`, and is unchanged by every other operation (and by a refused one:
+  `pop` on an empty heap, a `decrease_key` to a larger key).  `ReachL cmp s L`: `s` is reached by a sequence of
+  accepted operations and `L` is the live multiset that sequence defines. -/
+
+/-- the identities live after one more operation, from the operation and its RETURN VALUE alone -/
+def liveAfter (L : Multiset Nat) : Op K → Ret → Multiset Nat
+  | .push _, .item i => i ::ₘ L
+  | .pop, .item i => L.erase i
+  | .rem i, .unit => L.erase i
+  | .clear, _ => 0
+  | _, _ => L
+
+/-- reachable states, together with the live identities their history defines -/
+inductive ReachL (cmp : Cmp K) : St K → Multiset Nat → Prop
+  | init : ReachL cmp St.init 0
+  | step {s s' : St K} {L : Multiset Nat} {op : Op K} {r : Ret} :
+      ReachL cmp s L → step cmp s op = (some s', r) → ReachL cmp s' (liveAfter L op r)
+
+theorem ReachL.reach {cmp : Cmp K} {s : St K} {L : Multiset Nat} (h : ReachL cmp s L) : Reach cmp s := by
+  induction h with
+  | init => exact .init
+  | step _ hs ih => exact .step ih hs
+
+theorem reach_has_history {cmp : Cmp K} {s : St K} (h : Reach cmp s) : ∃ L, ReachL cmp s L := by
+  induction h with
+  | init => exact ⟨0, .init⟩
+  | step _ hs ih => obtain ⟨L, hL⟩ := ih; exact ⟨_, .step hL hs⟩
+
+/-- identities in the forest, as a multiset -/
+def idsM (rs : List (HNode K)) : Multiset Nat := (ms rs).map (·.1)
+
+theorem card_idsM (rs : List (HNode K)) : Multiset.card (idsM rs) = (flats rs).length := by
+  simp [idsM, card_ms]
+
+/-- the forest of a reachable heap holds EXACTLY the identities that were pushed and not yet popped / removed /
+    cleared — by induction over the operation sequence (multiset deltas of `push_spec`, `pop_spec`, `remove_spec`,
+    `decreaseKey_spec`) -/
+theorem forest_eq_history {cmp : Cmp K} (T : Total cmp) {s : St K} {L : Multiset Nat} (hr : ReachL cmp s L) :
+    idsM s.h.roots = L := by
+  induction hr with
+  | init => simp [idsM, St.init, empty, ms]
+  | @step s s' L op r hprev hs ih =>
+    obtain ⟨hInv, hlt⟩ := reachable_inv T hprev.reach
+    cases op with
+    | push k =>
+      have hid : s.next ∉ ids s.h.roots := fun hc => Nat.lt_irrefl _ (hlt _ hc)
+      obtain ⟨h', hp, _, hms⟩ := push_spec T s.h hInv s.next k hid
+      simp only [step, hp, Prod.mk.injEq, Option.some.injEq] at hs
+      obtain ⟨rfl, rfl⟩ := hs
+      simp only [liveAfter, idsM, hms, Multiset.map_add, Multiset.map_singleton, Multiset.singleton_add]
+      rw [← ih]; rfl
+    | pop =>
+      by_cases hne : s.h.roots = []
+      · simp only [step, pop_empty s.h hInv hne, Prod.mk.injEq, Option.some.injEq] at hs
+        obtain ⟨rfl, rfl⟩ := hs
+        simpa [liveAfter] using ih
+      · obtain ⟨h', z, hp, _, hms, _, _⟩ := pop_spec T s.h hInv hne
+        simp only [step, hp, Prod.mk.injEq, Option.some.injEq] at hs
+        obtain ⟨rfl, rfl⟩ := hs
+        simp only [liveAfter]
+        rw [← ih]
+        simp only [idsM, hms, Multiset.map_add, Multiset.map_singleton, Multiset.singleton_add, item,
+          Multiset.map_cons, Multiset.erase_cons_head]
+    | peek =>
+      by_cases hne : s.h.roots = []
+      · simp only [step, peek_empty s.h hInv hne, Prod.mk.injEq, Option.some.injEq] at hs
+        obtain ⟨rfl, rfl⟩ := hs
+        simpa [liveAfter] using ih
+      · obtain ⟨z, _, hp, _, _⟩ := peek_spec T s.h hInv hne
+        simp only [step, hp, Prod.mk.injEq, Option.some.injEq] at hs
+        obtain ⟨rfl, rfl⟩ := hs
+        simpa [liveAfter] using ih
+    | dec i k =>
+      rcases target_dec s i with ⟨x, hx, hxi⟩ | hno
+      · cases hlk : cmp.lt x.key k
+        · obtain ⟨h', rest, hp, _, hmo, hmn⟩ := decreaseKey_spec T s.h hInv i k x hx hxi hlk
+          simp only [step, hp, Prod.mk.injEq, Option.some.injEq] at hs
+          obtain ⟨rfl, rfl⟩ := hs
+          simp only [liveAfter]
+          rw [← ih]
+          simp only [idsM, hmo, hmn, Multiset.map_add, Multiset.map_singleton]
+        · simp only [step, decreaseKey_valueError s.h hInv i k x hx hxi hlk, Prod.mk.injEq, Option.some.injEq] at hs
+          obtain ⟨rfl, rfl⟩ := hs
+          simpa [liveAfter] using ih
+      · simp [step, decreaseKey_notInHeap s.h i k hno] at hs
+    | rem i =>
+      rcases target_dec s i with hin | hno
+      · obtain ⟨h', x, hp, _, _, hxi, hms⟩ := remove_spec T s.h hInv i hin
+        simp only [step, hp, Prod.mk.injEq, Option.some.injEq] at hs
+        obtain ⟨rfl, rfl⟩ := hs
+        simp only [liveAfter]
+        rw [← ih]
+        simp only [idsM, hms, Multiset.map_add, Multiset.map_singleton, Multiset.singleton_add, item, hxi,
+          Multiset.map_cons, Multiset.erase_cons_head]
+      · exfalso
+        have := (inv_step T s ⟨hInv, hlt⟩ (.rem i)).1 s' r hs
+        have hc : cutRoots cmp i (fun x => { x with deleted := true }) s.h.roots = none := by
+          cases hc : cutRoots cmp i (fun x => { x with deleted := true }) s.h.roots with
+          | none => rfl
+          | some res =>
+            exfalso
+            obtain ⟨rs', cuts⟩ := res
+            obtain ⟨x, _, hx, hxt, _⟩ := cutRoots_spec T i (fun x : HNode K => { x with deleted := true }) (fun x => ⟨rfl, rfl⟩) s.h.roots rs' cuts hc hInv.ord (fun y _ _ => T.irrefl _)
+            exact hno x hx hxt
+        simp [step, remove, hc] at hs
+    | len => simp only [step, Prod.mk.injEq, Option.some.injEq] at hs; obtain ⟨rfl, rfl⟩ := hs; simpa [liveAfter] using ih
+    | bool => simp only [step, Prod.mk.injEq, Option.some.injEq] at hs; obtain ⟨rfl, rfl⟩ := hs; simpa [liveAfter] using ih
+    | clear =>
+      simp only [step, Prod.mk.injEq, Option.some.injEq] at hs
+      obtain ⟨rfl, rfl⟩ := hs
+      simp [liveAfter, idsM, empty, ms]
+    | nodes => simp only [step, Prod.mk.injEq, Option.some.injEq] at hs; obtain ⟨rfl, rfl⟩ := hs; simpa [liveAfter] using ih
+    | iter => simp only [step, Prod.mk.injEq, Option.some.injEq] at hs; obtain ⟨rfl, rfl⟩ := hs; simpa [liveAfter] using ih
+    | minNode => simp only [step, Prod.mk.injEq, Option.some.injEq] at hs; obtain ⟨rfl, rfl⟩ := hs; simpa [liveAfter] using ih
+
+/-- C16, "the reported size is the number of live items", with LIVE = pushed and not yet popped / removed / cleared
+    according to the history: `len(heap)` (the counter `n` the code maintains) equals the number of such items, after
+    every sequence of operations -/
+theorem size_eq_history {cmp : Cmp K} (T : Total cmp) {s : St K} {L : Multiset Nat} (hr : ReachL cmp s L) :
+    s.h.n = Multiset.card L ∧ step cmp s .len = (some s, .size (Multiset.card L)) := by
+  have hsz := (reachable_inv T hr.reach).1.size
+  have := forest_eq_history T hr
+  have hn : s.h.n = Multiset.card L := by rw [← this, card_idsM, hsz]
+  exact ⟨hn, by simp [step, hn]⟩
+
+/-- … and the items `live` lists are exactly those of the history -/
+theorem live_eq_history {cmp : Cmp K} (T : Total cmp) {s : St K} {L : Multiset Nat} (hr : ReachL cmp s L) :
+    (((live s.h).map (·.1) : List Nat) : Multiset Nat) = L := by
+  rw [← forest_eq_history T hr]
+  simp only [live, idsM, ms, items, Multiset.map_coe, List.map_map]
+  rfl
 
 theorem live_perm_of_ms {a b : Heap K} {z : HNode K} (h : ms a.roots = {item z} + ms b.roots) :
     (live a).Perm ((z.id, z.key) :: live b) := by
@@ -357,6 +496,50 @@ theorem runDemo_reach (cmp : Cmp Int) : ∀ (ops : List (Op Int)) (s s' : St Int
     · rename_i s1 r hs
       exact runDemo_reach cmp ops s1 s' (Reach.step hr hs) h
     · simp at h
+
+/-! non-vacuity of `size_eq_history`: the demo sequence (4 pushes, a pop, a decrease_key, a push, a remove) with its
+    history; the live identities are computed from the return values as a LIST here so that the kernel can evaluate -/
+def liveAfterL (L : List Nat) : Op Int → Ret → List Nat
+  | .push _, .item i => i :: L
+  | .pop, .item i => L.erase i
+  | .rem i, .unit => L.erase i
+  | .clear, _ => []
+  | _, _ => L
+
+theorem liveAfterL_coe (L : List Nat) (op : Op Int) (r : Ret) : ((liveAfterL L op r : List Nat) : Multiset Nat) = liveAfter (L : Multiset Nat) op r := by
+  cases op <;> cases r <;> simp [liveAfterL, liveAfter]
+
+def runDemoL (cmp : Cmp Int) : List (Op Int) → St Int → List Nat → Option (St Int × List Nat)
+  | [], s, L => some (s, L)
+  | op :: ops, s, L => match step cmp s op with
+    | (some s', r) => runDemoL cmp ops s' (liveAfterL L op r)
+    | (none, _) => none
+
+theorem runDemoL_reach (cmp : Cmp Int) : ∀ (ops : List (Op Int)) (s s' : St Int) (L L' : List Nat),
+    ReachL cmp s (L : Multiset Nat) → runDemoL cmp ops s L = some (s', L') → ReachL cmp s' (L' : Multiset Nat)
+  | [], s, s', L, L', hr, h => by
+    simp only [runDemoL, Option.some.injEq, Prod.mk.injEq] at h
+    obtain ⟨rfl, rfl⟩ := h; exact hr
+  | op :: ops, s, s', L, L', hr, h => by
+    simp only [runDemoL] at h
+    split at h
+    · rename_i s1 r hs
+      exact runDemoL_reach cmp ops s1 s' _ L' (liveAfterL_coe L op r ▸ ReachL.step hr hs) h
+    · simp at h
+
+/-- after the demo sequence the history says: live = {4, 1, 0} (identity 3 was popped, 2 removed) — and `len` is 3 -/
+example : ∃ s, ReachL intMin s (([4, 1, 0] : List Nat) : Multiset Nat) ∧ s.h.n = 3 := by
+  have h : ∃ s, runDemoL intMin demoOps St.init [] = some (s, [4, 1, 0]) := by
+    have : (runDemoL intMin demoOps St.init []).map (·.2) = some [4, 1, 0] := by decide +kernel
+    cases hr : runDemoL intMin demoOps St.init [] with
+    | none => simp [hr] at this
+    | some p =>
+      obtain ⟨s, L⟩ := p
+      simp only [hr, Option.map_some, Option.some.injEq] at this
+      exact ⟨s, by rw [this]⟩
+  obtain ⟨s, hs⟩ := h
+  have hr := runDemoL_reach intMin demoOps St.init s [] [4, 1, 0] ReachL.init hs
+  exact ⟨s, hr, by simpa using (size_eq_history total_intMin hr).1⟩
 
 /-- the demo sequence is accepted (so its end state is `Reach`able, by `runDemo_reach`), leaves 3 live items with a
     tree of depth 2, and the next `pop` succeeds: the hypotheses `Inv h` / `pop … = .ok …` of the theorems above are
